@@ -10,7 +10,9 @@ def lists(rng, n):
     out = [["polish", "Polish", "one"], ["Polish", "polish"], ["usa", "USA"], ["USA", "usa"], ["mcDonald", "McDonald"], ["one"], ["One"],
            ["ice-cream", "Ice-Cream", "Ice-cream"], ["new york", "New York", "New york"], ["a", "A", "a", "A"], ["ǆ", "ǅ", "Ǆ"],
            ["ǆemal", "ǅemal", "one"], ["ᾀδω", "ᾈδω"], ["ⅷ", "Ⅷ", "two"], ["ab", "c"], ["a", "bc"], ["ab", "c"], ["zaz", "a", "zb"], ["za", "za", "zb"],
-           ["Polishpo", "lish", "five"], ["Polish", "polish", "five"], ["us", "US"], ["US", "us"]]
+           ["Polishpo", "lish", "five"], ["Polish", "polish", "five"], ["us", "US"], ["US", "us"],
+           ["ice-Cream", "Ice-cream"], ["Ice-cream", "ice-Cream", "ice-cream"], ["o'neil", "o'Neil"], ["x-ray", "x-Ray", "one"], ["ırmak", "irmak"],
+           ["polish", "Polish", "Polish"], ["Polish", "polish", "Polish", "Polish", "one"]]
     while len(out) < n:
         k = rng.randint(1, 9)
         out.append([rng.choice(pool) for _ in range(k)])
